@@ -62,15 +62,18 @@ int main(int argc, char ** argv) {
             auto l = readVecs(c, d); size_t bound = c.nextSize();
             auto b = extractBestAtSimplexCorners(d, l.begin(), l.begin() + bound, l.end());
             o << (size_t) std::distance(l.begin(), b); outVecs(o, l, d);
-        } else if (kind == "prune") {       // vecs -> bound array, then the LP transcript
-            auto l = readVecs(c, d);
-            auto l2 = l;
+        } else if (kind == "prune" || kind == "prune2") {   // vecs [vecs] -> per set: bound array transcript
+            // prune2 reuses ONE Pruner object (and its WitnessLP) on two sets of the same dimension
+            // but different sizes; the transcript always comes from a FRESH WitnessLP, so any state
+            // leaking from the first run into the second shows up as a difference.
+            const size_t runs = kind == "prune" ? 1 : 2;
+            std::vector<std::vector<Vector>> sets;
+            for (size_t i = 0; i < runs; ++i) sets.push_back(readVecs(c, d));
             Pruner pr(d);
-            auto b = pr(l.begin(), l.end());
-            o << (size_t) std::distance(l.begin(), b); outVecs(o, l, d);
-            // Transcript of the witness LP (oracle for the model): the same sequence of library
-            // calls on a second WitnessLP; each entry is  nrows v found [witness].
-            {
+            for (auto & l : sets) {
+                auto l2 = l;
+                auto b = pr(l.begin(), l.end());
+                o << (size_t) std::distance(l.begin(), b); outVecs(o, l, d);
                 auto begin = l2.begin(); auto end = extractDominated(begin, l2.end());
                 const size_t size = std::distance(begin, end);
                 std::vector<std::tuple<size_t, Vector, bool, Vector>> log;
